@@ -170,6 +170,8 @@ def run_shard(shard):
             duplicates_family(st)
         if li == 2:
             replaced_family(st)
+        if li == 3:
+            reuse_family(st)
         if li == lo:
             st.sample({"lhs": ltext, "rhs": corpus.render(neighbours(lspec)[0])
                        if neighbours(lspec) else ltext, "arrays": "position",
@@ -286,6 +288,47 @@ def interleaved_family(st):
                                 repr(want)[:300], repr(got)[:300])
                     else:
                         st.sig("interleaved", i, arrays, aoh)
+
+
+def reuse_family(st):
+    """One Differ used for several comparisons in a row, its report read
+    after each: every report is that of the basis document against the
+    document compared last (sequences of two and three right-hand documents
+    of one shape - so that the reports have equal lengths - and of others)."""
+    import itertools
+    basis = "a: 1\nl: [x, y]\nm: {k: v}\n"
+    rights = [basis, "a: 2\nl: [x, y]\nm: {k: v}\n",
+              "a: 1\nl: [x, z]\nm: {k: v}\n", "a: 3\nl: [y, x]\nm: {k: w}\n",
+              "a: 1\n", "[1, 2]\n"]
+    for arrays in ARRAYS:
+        cfg = DifferConfig(corpus.LOG, SimpleNamespace(arrays=arrays,
+                                                       aoh="position"))
+
+        def solo(rtext):
+            d = Differ(cfg, corpus.LOG, corpus.load(basis))
+            d.compare_to(corpus.load(rtext))
+            return [str(e) for e in d.get_report()]
+        for n in (2, 3):
+            for seq in itertools.product(rights, repeat=n):
+                st.evaluations += 1
+                st.transitions += 2 * n
+                st.validated += 1
+                st.states += 1
+                differ = Differ(cfg, corpus.LOG, corpus.load(basis))
+                for k, rtext in enumerate(seq):
+                    differ.compare_to(corpus.load(rtext))
+                    got = [str(e) for e in differ.get_report()]
+                    want = solo(rtext)
+                    if got != want:
+                        st.fail("reused-differ|%s" % arrays,
+                                {"lhs": basis, "rhs": rtext, "arrays": arrays,
+                                 "aoh": "position",
+                                 "reused_after": list(seq[:k])},
+                                repr(want)[:300], repr(got)[:300])
+                        break
+                else:
+                    st.outcomes["equal"] += 1
+                    st.sig("reused", seq, arrays)
 
 
 # ---------------------------------------------------------------- data oracle
@@ -621,6 +664,11 @@ def describe(entries):
 
 def replay(case):
     st = core.Stats(None)
+    if "reused_after" in case:
+        reuse_family(st)
+        for lst in st.fails.values():
+            return lst[0]
+        return None
     if case.get("interleaved_with"):
         interleaved_family(st)
         for lst in st.fails.values():
